@@ -643,16 +643,24 @@ Proof.
   exact (run_restores ord inl (p_fns P) Hord (p_main P) n0 FUEL (ndefs_state d0 (p_ndefs P))).
 Qed.
 
+Lemma session_with_ok run :
+  (forall P n0 d, fst (run P n0 d) = ONormal -> v_depth (snd (run P n0 d)) = d) ->
+  forall inputs d,
+  Forall (fun r => fst r = ONormal) (session_with run inputs d) ->
+  Forall (fun r => snd r = d) (session_with run inputs d).
+Proof.
+  intro Hrun. induction inputs as [|[P n0] r IH]; intros d H; cbn [session_with] in *; [constructor|].
+  inversion H as [|x l Hx Hl]; subst. cbn [fst] in Hx. unfold driver_next_depth in *.
+  pose proof (Hrun P n0 d Hx) as R. rewrite R in *.
+  constructor; [reflexivity | apply IH; assumption].
+Qed.
+
 Lemma session_ok_restores ord inl : ord <> RetNoExit -> forall inputs d,
   Forall (fun r => fst r = ONormal) (session ord inl inputs d) ->
   Forall (fun r => snd r = d) (session ord inl inputs d).
 Proof.
-  intro Hord. induction inputs as [|[P n0] r IH]; intros d H; cbn [session] in *; [constructor|].
-  pose proof (run_vm_restores ord inl P n0 d Hord) as R. cbv zeta in R.
-  destruct (run_vm ord inl P n0 d) as [o st]. cbn [fst snd] in R. unfold driver_next_depth in *.
-  inversion H as [|x l Hx Hl]; subst. cbn [fst] in Hx. subst o.
-  destruct R as [R _]. specialize (R eq_refl).
-  constructor; [exact R|]. rewrite R in *. apply IH; assumption.
+  intro Hord. unfold session. apply session_with_ok.
+  intros P n0 d. exact (proj1 (run_vm_restores ord inl P n0 d Hord)).
 Qed.
 
 (* no @no_gc function anywhere: nothing ever changes the depth, whatever the outcome *)
@@ -668,7 +676,7 @@ Lemma noee_exec tbl : Forall (fun c => noee c = true) tbl ->
   forall fuel c n i st, noee c = true -> v_depth (snd (vm_exec fuel tbl c n i st)) = v_depth st.
 Proof.
   intro Ht. induction fuel as [|f IH]; intros c n i st Hc; [reflexivity|].
-  destruct c; cbn [noee] in Hc; try discriminate; cbn [vm_exec]; try reflexivity.
+  destruct c as [| | | | | f0 | c1 c2 | cd c1 c2 | j k c | | | ]; cbn [noee] in Hc; try discriminate; cbn [vm_exec]; try reflexivity.
   - destruct (nth_error tbl f0) as [cg|] eqn:En; [|reflexivity].
     assert (Hg : noee cg = true) by (eapply (proj1 (Forall_forall _ _) Ht); eapply nth_error_In; eassumption).
     pose proof (IH cg (n - 1)%Z 0%Z st Hg) as H.
@@ -676,7 +684,7 @@ Proof.
   - apply andb_true_iff in Hc as [Ha Hb]. pose proof (IH c1 n i st Ha) as H1.
     destruct (vm_exec f tbl c1 n i st) as [o st']; cbn [snd] in H1.
     destruct o; try exact H1. rewrite <- H1. apply IH; assumption.
-  - apply andb_true_iff in Hc as [Ha Hb]. destruct (ceval c n i); apply IH; assumption.
+  - apply andb_true_iff in Hc as [Ha Hb]. destruct (ceval cd n i); apply IH; assumption.
   - destruct (j <? k); [|reflexivity].
     pose proof (IH c n (Z.of_N j) st Hc) as H1.
     destruct (vm_exec f tbl c n (Z.of_N j) st) as [o st']; cbn [snd] in H1.
@@ -706,3 +714,55 @@ Proof.
   unfold emit_tbl. apply Forall_map. eapply Forall_impl; [|exact H].
   intros f Hf. unfold emit_fn. rewrite Hf. cbn [kflag noee]. rewrite noee_stmt. reflexivity.
 Qed.
+
+(* ------------------------------------------------------------------ witnesses of the refuted statements *)
+Local Open Scope Z_scope.
+(* `@no_gc fn f(a, b) { return a + b }` *)
+Definition w_leaf_ret : fn := mkFn true true (sq [SReturn ESafe]).
+(* `@no_gc fn g(a, b) { a + b }` *)
+Definition w_leaf_imp : fn := mkFn true true (sq [SExpr ESafe]).
+(* `@no_gc fn h(n, z) { acc = acc + sx; zq = 10 / z; return n }` *)
+Definition w_fail_in_region : fn := mkFn true false (sq [SExpr ESafe; SExpr EFail; SReturn EAtom]).
+(* `@no_gc fn h2(n, z) { acc = acc + sx; return 10 / z }` : the failing operation inside the return expression *)
+Definition w_fail_in_return : fn := mkFn true false (sq [SExpr ESafe; SReturn EFail]).
+Definition prog_call (f : fn) : prog := mkProg [f] (sq [SExpr (ECall 0)]) 1.
+Definition prog_safe : prog := mkProg [] (sq [SExpr ESafe]) 0.
+
+Lemma return_expr_path_witness :
+  return_exit_order = RetExitFirst ->
+  path (emit_fn return_exit_order false [] w_leaf_ret) [VEnter; VExit; VSafe] CReturned /\
+  ~ alloc_pos 0 [VEnter; VExit; VSafe].
+Proof.
+  intro E. rewrite E. split.
+  - unfold emit_fn, w_leaf_ret. cbn.
+    apply (P_seq_n KEnter _ [VEnter] [VExit; VSafe]); [constructor|].
+    apply P_seq_x; [|discriminate].
+    apply P_seq_x; [|discriminate].
+    apply (P_seq_n KExit _ [VExit] [VSafe]); [constructor|].
+    apply (P_seq_n KSafe _ [VSafe] []); constructor.
+  - cbn. intros [H _]. lia.
+Qed.
+
+Lemma return_expr_exec_witness :
+  let '(o, st) := run_vm return_exit_order false (prog_call w_leaf_ret) 1 0 in
+  let '(_, ss) := run_src (prog_call w_leaf_ret) 1 in
+  o = ONormal /\ s_flag ss = 1%N /\ v_pos st = 0%N /\ v_depth st = 0%N.
+Proof. vm_compute. repeat split; reflexivity. Qed.
+
+Lemma error_leak_witness :
+  session return_exit_order false [(prog_call w_fail_in_region, 1); (prog_safe, 1); (prog_safe, 1)] 0
+  = [(OErr, 1%N); (ONormal, 1%N); (ONormal, 1%N)]
+  /\ (let '(_, st) := run_vm return_exit_order false prog_safe 1 1 in v_safes st = 1%N /\ v_pos st = 1%N).
+Proof. vm_compute. split; [reflexivity | split; reflexivity]. Qed.
+
+(* the two defects mask each other when the failing operation sits inside the return expression *)
+Lemma error_in_return_expr_masked :
+  session return_exit_order false [(prog_call w_fail_in_return, 1); (prog_safe, 1)] 0 = [(OErr, 0%N); (ONormal, 0%N)].
+Proof. vm_compute. reflexivity. Qed.
+
+Lemma inline_witness :
+  let '(_, a) := run_vm return_exit_order false (prog_call w_leaf_imp) 1 0 in
+  let '(_, b) := run_vm return_exit_order true (prog_call w_leaf_imp) 1 0 in
+  let '(_, ss) := run_src (prog_call w_leaf_imp) 1 in
+  s_flag ss = 1%N /\ v_pos a = 1%N /\ v_pos b = 0%N /\ v_safes a = v_safes b.
+Proof. vm_compute. repeat split; reflexivity. Qed.
